@@ -20,6 +20,8 @@ from yaql.language import utils as yutils
 
 from props import c12_gen as G
 
+from yaql.language import yaqltypes
+
 ID = 'C12'
 KNOWN = set(H.P('known', ()))
 F13 = 'C12/empty-slot-in-varargs'
@@ -358,9 +360,134 @@ def interesting(fd, pl):
     return sum(1 for a in pl['args'] if a.has_default) >= 2
 
 
+# ------------------------------------------------------------------ operators through call(name, args, kwargs)
+def _binary_operator_names():
+    names = set()
+    c = G.ROOT
+    while c is not None:
+        for n in getattr(c, '_functions', {}):
+            if n.startswith('#operator_') and n not in ('#operator_.', '#operator_?.', '#operator_->', '#operator_and', '#operator_or'):
+                names.add(n)
+        c = c.parent
+    # keep the operators all of whose overloads publish exactly the keyword names left / right
+    out = []
+    for n in sorted(names):
+        shapes = []
+        c = G.ROOT
+        while c is not None:
+            for fd in getattr(c, '_functions', {}).get(n, ()):
+                ps = sorted((p.position, p.alias or p.name) for p in fd.parameters.values()
+                            if p.position is not None and not isinstance(p.value_type, yaqltypes.HiddenParameterType))
+                shapes.append(tuple(x[1] for x in ps))
+            c = c.parent
+        if shapes.count(('left', 'right')) >= 2:        # (other overloads, e.g. date/time ones, never match the scalar corpus)
+            out.append(n)
+    return out
+
+
+OPNAMES = _binary_operator_names()
+OPBOX = [(n,) for n in OPNAMES]
+OPVALS = [1, 2, 'a', 'ab', None, (1, 2), 2.5]
+VBOX = [(i,) for i in range(len(OPVALS))]
+
+
+def other_shape_accepts(name, a, b):
+    c = G.ROOT
+    while c is not None:
+        for fd in getattr(c, '_functions', {}).get(name, ()):
+            ps = sorted(((p.position, p) for p in fd.parameters.values()
+                         if p.position is not None and not isinstance(p.value_type, yaqltypes.HiddenParameterType)),
+                        key=lambda x: x[0])
+            names = tuple((p.alias or p.name) for _, p in ps)
+            if names == ('left', 'right'):
+                continue
+            try:
+                if fd.map_args((a, b), {}, c, ENG) is not None:
+                    return True
+            except Exception:
+                return True
+        c = c.parent
+    return False
+
+
+def operator_call(o: int, i: int, j: int) -> bool:
+    """
+    pre: 0 <= o < len(OPNAMES) and 0 <= i < len(OPVALS) and 0 <= j < len(OPVALS)
+    post: _
+    """
+    # an operator is an ordinary overloaded function '#operator_X' with parameters left/right (several overloads share the
+    # names): positional, mixed and keyword spellings through call() must agree with each other
+    name, a, b = OPBOX[o][0], OPVALS[VBOX[i][0]], OPVALS[VBOX[j][0]]
+    with H.NoTracing():
+        v = {'a': a, 'b': b, 'n': name}
+        base = outcome('call($n, [$a, $b], {})', v)
+        ok = True
+        if other_shape_accepts(name, a, b):
+            pass        # an overload with other parameter names (e.g. concat(*args) as '+') takes this call: nothing to compare
+        elif base[0] == 'ok' or base[1] in ('NoMatchingFunctionException',):
+            for text in ('call($n, [$a], {right => $b})', 'call($n, [], {left => $a, right => $b})',
+                         'call($n, [], {right => $b, left => $a})'):
+                got = outcome(text, v)
+                ok = ok and got[0] == base[0] and (same_value(got[1], base[1]) if got[0] == 'ok' else got[1] == base[1])
+    return H.done(ok)
+
+
+# ------------------------------------------------------------------ keyword names follow the convention of the context
+def _convention_contexts():
+    import yaql
+    from yaql.language import conventions
+    camel = yaql.create_context(convention=conventions.CamelCaseConvention())
+    py = yaql.create_context(convention=conventions.PythonConvention())
+    camel2 = yaql.create_context()
+    return {'camel': camel, 'python': py, 'camel2': camel2}
+
+
+CONV_CASES = [  # (expression with {kw} placeholders per convention, python parameter name)
+    ("'aXbxc'.split('x', {max_splits} => 1)", 'max_splits'),
+    ("'A'.matches('a')", None),
+    ("regex('a', {ignore_case} => true).matches('A')", 'ignore_case'),
+    ("[1, 2, 2].distinct({key_selector} => $)", 'key_selector'),
+    ("[3, 1, 2].distinct().len()", None),
+]
+CCBOX = [(i,) for i in range(len(CONV_CASES))]
+if not H.P('driver'):
+    CONV_CTX = _convention_contexts()
+
+
+def convention_names(c: int, order: bool) -> bool:
+    """
+    pre: 0 <= c < len(CONV_CASES)
+    post: _
+    """
+    # every context publishes keyword names in ITS convention, whatever other contexts (other conventions) exist in the process
+    tmpl, pyname = CONV_CASES[CCBOX[c][0]]
+    with H.NoTracing():
+        def camel(n):
+            parts = n.split('_')
+            return parts[0] + ''.join(x.capitalize() for x in parts[1:])
+        ok = True
+        seq = ('camel', 'python', 'camel2') if order else ('python', 'camel', 'camel2')
+        for which in seq:
+            ctx = CONV_CTX[which]
+            good = tmpl.replace('{%s}' % pyname, pyname if which == 'python' else camel(pyname)) if pyname else tmpl
+            bad = tmpl.replace('{%s}' % pyname, camel(pyname) if which == 'python' else pyname) if pyname else None
+            pos = tmpl.replace('{%s} => ' % pyname, '') if pyname else tmpl
+            g, p0 = outcome(good, {}, ctx), outcome(pos, {}, ctx)
+            ok = ok and g[0] == 'ok' and p0[0] == 'ok' and same_value(g[1], p0[1])
+            if bad and bad != good:
+                ok = ok and outcome(bad, {}, ctx)[0] == 'err'
+    return H.done(ok)
+
+
 def conditions(tier, seed):
     quick = tier == 'quick'
-    out = []
+    out = [{'name': 'operator_call', 'func': 'operator_call', 'timeout': 400,
+            'bounds': 'every binary operator function of the live registry (%d) x %d x %d operand values: call(name, [a, b], {}) vs '
+                      'call(name, [a], {right => b}) vs call(name, [], {left => a, right => b}) (selectors; each path concrete)' % (
+                          len(OPNAMES), len(OPVALS), len(OPVALS))},
+           {'name': 'convention_names', 'func': 'convention_names', 'timeout': 200,
+            'bounds': 'standard contexts created with the CamelCase and the Python naming convention in one process (both creation '
+                      'orders of use): keyword names of multi-word parameters follow the context\'s own convention'}]
     reg = G.registry()
     cands = []
     for uid, fd in reg:
@@ -485,6 +612,14 @@ def replay(cond, args):
                 'what': '%s%r raised %r' % (cond['name'], args, e)}
     if ok:
         return {'reproduced': False}
+    if cond['func'] == 'operator_call':
+        return {'reproduced': True, 'key': 'C12/operator-call-spellings',
+                'what': 'call(%r, [a, b], {}) and its keyword spellings (right => b / left => a, right => b) disagree for a=%r b=%r' % (
+                    OPNAMES[args['o']], OPVALS[args['i']], OPVALS[args['j']])}
+    if cond['func'] == 'convention_names':
+        return {'reproduced': True, 'key': 'C12/convention-names',
+                'what': 'keyword names of %r do not follow the naming convention of the context they are evaluated in (contexts '
+                        'with the CamelCase and the Python convention in one process)' % (CONV_CASES[args['c']][0],)}
     if cond['func'] in ('live', 'live_sym'):
         if cond['func'] == 'live':
             variables = dict(zip(USED, [DOMS[k][args['idx'][k]] for k in range(len(USED))]))
